@@ -3,7 +3,9 @@ package main
 import (
 	"fmt"
 	"os"
+	"path/filepath"
 
+	hg "github.com/mosaicnetworks/babble/src/hashgraph"
 	"verif/harness/dag"
 	"verif/harness/mon"
 	"verif/harness/sched"
@@ -187,6 +189,113 @@ func init() {
 				}
 			}
 			fmt.Println(line)
+		}
+		return 0
+	}
+}
+
+func init() {
+	checks["dbgframe"] = func(args []string) int {
+		ops := recordOps(args[0])
+		for i, op := range ops {
+			if op.K != "reset" {
+				continue
+			}
+			f := new(hg.Frame)
+			if err := f.Unmarshal(op.Data); err != nil {
+				fmt.Println("unmarshal", err)
+				return 1
+			}
+			raw2, _ := f.Marshal()
+			a, b := canon(op.Data), canon(raw2)
+			fmt.Println("reset at op", i, "len", len(a), len(b), "equal", a == b)
+			if a != b {
+				k := 0
+				for k < len(a) && k < len(b) && a[k] == b[k] {
+					k++
+				}
+				lo := k - 200
+				if lo < 0 {
+					lo = 0
+				}
+				fmt.Println("A:", a[lo:min(len(a), k+200)])
+				fmt.Println("B:", b[lo:min(len(b), k+200)])
+			}
+			h1, _ := f.Hash()
+			f2 := new(hg.Frame)
+			f2.Unmarshal(raw2)
+			h2, _ := f2.Hash()
+			fmt.Printf("hash after 1 round trip %x, after 2 %x\n", h1[:6], h2[:6])
+		}
+		return 0
+	}
+}
+
+func init() {
+	checks["dbgframe2"] = func(args []string) int {
+		ops := recordOps(args[0])
+		upto := atoi(args[1])
+		dir := filepath.Join(scratchDir(), "dbg")
+		defer os.RemoveAll(scratchDir())
+		st, _ := hg.NewBadgerStore(4, dir, false, quietBadger())
+		m := newModel()
+		for i := 0; i <= upto; i++ {
+			if err := applyOp(st, m, ops[i]); err != nil {
+				fmt.Println("op", i, ops[i].K, err)
+			}
+			if ops[i].K == "frame" || ops[i].K == "reset" {
+				fmt.Println("op", i, ops[i].K, "len", len(ops[i].Data))
+			}
+		}
+		st.Close()
+		st, _ = hg.NewBadgerStore(4, dir, false, quietBadger())
+		for r, want := range m.frames {
+			f, err := st.VDbGetFrame(r)
+			if err != nil {
+				fmt.Println("frame", r, err)
+				continue
+			}
+			got, _ := f.Marshal()
+			a, b := canon(want), canon(got)
+			fmt.Println("frame", r, "equal", a == b, len(a), len(b))
+			if a != b {
+				k := 0
+				for k < len(a) && k < len(b) && a[k] == b[k] {
+					k++
+				}
+				lo := k - 150
+				if lo < 0 {
+					lo = 0
+				}
+				fmt.Println("WANT:", a[lo:min(len(a), k+150)])
+				fmt.Println("GOT :", b[lo:min(len(b), k+150)])
+			}
+		}
+		st.Close()
+		return 0
+	}
+}
+
+func init() {
+	checks["dbgund"] = func(args []string) int {
+		sc := sched.ScenarioByName(args[0])
+		x := sched.NewExec(sc, nil)
+		defer x.Close()
+		x.NoDigest = true
+		max := map[int]int{}
+		for _, a := range sc.Seed {
+			x.Step(a)
+			for _, n := range x.C.Nodes {
+				if n != nil && !n.Down {
+					if u := len(n.Node.VHashgraph().UndeterminedEvents); u > max[n.Idx] {
+						max[n.Idx] = u
+					}
+				}
+			}
+		}
+		fmt.Println("max undetermined per node:", max)
+		for _, n := range x.C.Nodes {
+			fmt.Printf("n%d validators=%d state=%s\n", n.Idx, len(n.Node.VCoreState().Validators), n.Node.GetState())
 		}
 		return 0
 	}
